@@ -77,6 +77,7 @@ func doDelete(pj *simdjson.ParsedJson, roots []*ref.Value, d delOp) (bad string)
 	}
 	var cbs []cbRec
 	var wantVisit []int
+	var sameHandle *simdjson.Object
 	if c.K == ref.Array {
 		a, err := it.Array(nil)
 		if err != nil {
@@ -145,6 +146,7 @@ func doDelete(pj *simdjson.ParsedJson, roots []*ref.Value, d delOp) (bad string)
 		if err := o.DeleteElems(fn, only); err != nil {
 			return fmt.Sprintf("Object.DeleteElems returned %v", err)
 		}
+		sameHandle = o
 	}
 	// callback monitor: each (filtered) member once, in order, with its own key and value
 	if c.K == ref.Array || d.Variant != 1 {
@@ -173,6 +175,27 @@ func doDelete(pj *simdjson.ParsedJson, roots []*ref.Value, d delOp) (bad string)
 		}
 	}
 	modelDelete(c, del)
+	if sameHandle != nil {
+		// the Object handle that did the deletion is still a handle on the whole object
+		var keys []string
+		if err := sameHandle.ForEach(func(key []byte, i simdjson.Iter) { keys = append(keys, string(key)) }, nil); err != nil {
+			return fmt.Sprintf("ForEach on the Object handle used for DeleteElems returned %v", err)
+		}
+		if len(keys) != len(c.Keys) {
+			return fmt.Sprintf("the Object handle used for DeleteElems now exposes %d members %q, the object has %d", len(keys), keys, len(c.Keys))
+		}
+		for i := range keys {
+			if keys[i] != string(c.Keys[i]) {
+				return fmt.Sprintf("the Object handle used for DeleteElems exposes member %d as %q, want %q", i, keys[i], c.Keys[i])
+			}
+		}
+		if len(c.Keys) > 0 {
+			k := c.Keys[0]
+			if e := sameHandle.FindKey(string(k), nil); e == nil {
+				return fmt.Sprintf("FindKey(%q) on the Object handle used for DeleteElems = nil, the member survives", k)
+			}
+		}
+	}
 	return ""
 }
 
@@ -451,7 +474,7 @@ func runC14(w *W) {
 	for _, span := range [][2]int{{8190, 8194}, {8188, 8190}, {0, 8192}, {8191, 8193}} {
 		w.c14Large(st, 20000, span[0], span[1])
 	}
-	nEnum, nHist := 700, 5000
+	nEnum, nHist := 2500, 20000
 	if w.thorough() {
 		nEnum, nHist = 40000, 400000
 	}
